@@ -686,6 +686,10 @@ func Equal(a, b interface{}) bool {
 	return deepEq(reflect.ValueOf(a), reflect.ValueOf(b))
 }
 
+// PoolLeftovers: symbolic-only switch - an object taken from a sync.Pool may
+// carry state another request left in it (one designated Get per path).
+func PoolLeftovers(on bool) {}
+
 // PermuteOneMap: symbolic-only switch - exactly one map range of the code that
 // follows iterates in an arbitrary order (which one is part of the schedule).
 func PermuteOneMap(on bool) {}
